@@ -70,6 +70,8 @@ def predicate(body, blocks, len_arg, self_arg, variant):
             return ("const", const_value(x[1]))
         if x[0] == "field" and x[1][0] == "downcast" and x[1][2] == variant and strip_refs(x[1][1]) == ("arg", self_arg):
             return ("payload", x[2])
+        if x[0] == "field" and strip_refs(x[1])[0] == "field" and strip_refs(x[1])[1][0] == "downcast" and strip_refs(x[1])[1][2] == variant and strip_refs(strip_refs(x[1])[1][1]) == ("arg", self_arg):
+            return ("rangefield", x[2])     # a field of the payload struct: Range { start, end }
         return ("?", show_expr(x))
 
     if e[0] == "const" and isinstance(const_value(e[1]), bool):
@@ -86,6 +88,25 @@ def predicate(body, blocks, len_arg, self_arg, variant):
             a, b = classify(e[2][0]), classify(e[2][1])
     elif e[0] == "binop" and e[1] in FLIP:
         op, a, b = e[1], classify(e[2]), classify(e[3])
+    if op is None and e[0] == "phi":
+        # a conjunction `c1 && c2`: the result is false or the last comparison, which is only reached when the earlier ones held
+        from .core import implied_comparisons
+        alts = [strip_refs(x) for x in e[2]]
+        rest = [x for x in alts if not (x[0] == "const" and const_value(x[1]) is False)]
+        if len(rest) == 1 and rest[0][0] == "binop" and rest[0][1] in FLIP:
+            last = rest[0]
+            # the block where that comparison is assigned to the result
+            dblk = None
+            for d in body.defs().get(0, []):
+                if d[0] == "stmt" and d[1] in blocks and strip_refs(body._trace_def(d, 0, frozenset())) == last:
+                    dblk = d[1]
+            if dblk is not None:
+                conj = [("cmp", last[1], classify(last[2]), classify(last[3]))]
+                for (op2, x2, y2) in implied_comparisons(body, dblk):
+                    a2, b2 = classify(x2), classify(y2)
+                    if "LEN" in (a2[0], b2[0]):
+                        conj.append(("cmp", op2, a2, b2))
+                return ("and", conj)
     if op is None:
         raise Inconclusive("arity predicate for variant %s is not a single comparison: %s" % (variant, show_expr(e)))
     return ("cmp", op, a, b)
@@ -104,8 +125,20 @@ def interval_of(pred, num, subject):
             if num[0] == "Variadic":
                 return None
             return payload[x[1]]
+        if x[0] == "rangefield" and num[0] == "Variadic":
+            return payload[x[1]]
         return None
 
+    if pred[0] == "and":
+        lo, hi = 0, INF
+        for sub in pred[1]:
+            iv = interval_of(sub, num, subject)
+            if not iv:
+                return []
+            if len(iv) != 1:
+                raise Inconclusive("conjunction with a non-interval conjunct")
+            lo, hi = max(lo, iv[0][0]), min(hi, iv[0][1])
+        return [(lo, hi)] if lo <= hi else []
     if pred[0] == "true":
         return [(0, INF)]
     if pred[0] == "false":
